@@ -61,7 +61,10 @@ class Pool(object):
                     if ok:
                         it[2] = Snap(obj)
                     continue
-                d = snap.diff()
+                bit, d = snap.semantic_diff()
+                if bit is not None and d is None:
+                    self.ctx.events['live_object_gauge_changed_only:' + step] += 1
+                    it[2] = Snap(obj)
                 if d is not None:
                     sg = shape_sig_cores(snap.cores)
                     tags = ['step=' + step, 'victim=' + name.split('#')[0]]
